@@ -189,6 +189,7 @@ func verifHosts(l *roundRobinLoadBalancer) []*Host { return l.hosts.Load().([]*H
 // $sends counts the requests a backend connection accepted (ClientConn.Send returned nil).
 //@ func proxycore.Session.Send [C01, C04, C05]
 //@   requires s != nil && host != nil
+//@   requires well-formed-request: reqOK(request) [C17]
 //@   after proxycore.ClientConn.Send#1 set $sends = $sends + ite(result == nil, 1, 0)
 //@   ensures result == nil ==> $sends == old($sends) + 1
 //@   ensures result != nil ==> $sends == old($sends)
@@ -212,9 +213,20 @@ func verifHosts(l *roundRobinLoadBalancer) []*Host { return l.hosts.Load().([]*H
 //@ type proxycore.pendingRequests
 //@   ghost $has bmap, $tag imap, $val imap
 
+// C17: prepareRequest.Execute is not implemented (it panics, and a panic in a connection's reader
+// goroutine takes the whole process down), so it must be unreachable: the request a prepareRequest
+// stands for is never itself a prepareRequest. reqOK is checked where a request enters a pending
+// table (pendingRequests.store, the only writer) and assumed of what comes out of it; the fields
+// are written once.
+//@ type proxycore.prepareRequest
+//@   immutable: prepare, origRequest
+//@ macro prOK(r) = r != nil && r.origRequest != nil && !typeis(r.origRequest, *proxycore.prepareRequest)
+//@ macro reqOK(q) = typeis(q, *proxycore.prepareRequest) ==> prOK(as(q, *proxycore.prepareRequest))
+
 //@ func proxycore.pendingRequests.store [C02]
 //@   trusted
 //@   requires p != nil
+//@   requires well-formed-request: reqOK(request) [C17]
 //@   ensures result >= -1 && result < MaxStreams
 //@   ensures allocated: result >= 0 ==> !old(p.$has[result]) && p.$has[result] && p.$tag[result] == tagof(request) && p.$val[result] == valof(request)
 //@   ensures others: forall(s, 0, MaxStreams, s != result ==> p.$has[s] == old(p.$has[s]) && p.$tag[s] == old(p.$tag[s]) && p.$val[s] == old(p.$val[s]))
@@ -231,6 +243,7 @@ func verifHosts(l *roundRobinLoadBalancer) []*Host { return l.hosts.Load().([]*H
 //@   requires response-arrived: $arrived && stream == $arrivedStream
 //@   ensures found: 0 <= stream && stream < MaxStreams && old(p.$has[stream]) ==> tagof(result) == old(p.$tag[stream]) && valof(result) == old(p.$val[stream]) && result != nil && !p.$has[stream]
 //@   ensures missing: !(0 <= stream && stream < MaxStreams && old(p.$has[stream])) ==> result == nil
+//@   ensures stored-well-formed: reqOK(result)
 //@   ensures others: forall(s, 0, MaxStreams, s != stream ==> p.$has[s] == old(p.$has[s]) && p.$tag[s] == old(p.$tag[s]) && p.$val[s] == old(p.$val[s]))
 //@   modifies nothing, p.$has, p.$tag, p.$val
 
@@ -242,12 +255,15 @@ func verifHosts(l *roundRobinLoadBalancer) []*Host { return l.hosts.Load().([]*H
 // connection, which takes that connection's closingMu): they must be called with no lock held.
 //@ iface proxycore.Request.OnClose [C01]
 //@   requires no-lock-held: nolocks() [C18]
+//@   requires well-formed-request: reqOK(recv) [C17]
 //@   modifies *
 //@ iface proxycore.Request.OnResult [C01]
 //@   requires no-lock-held: nolocks() [C18]
+//@   requires well-formed-request: reqOK(recv) [C17]
 //@   modifies *
 //@ iface proxycore.Request.Execute [C01]
 //@   requires no-lock-held: nolocks() [C18]
+//@   requires implemented: !typeis(recv, *proxycore.prepareRequest) [C17]
 //@   modifies *
 //@ iface proxycore.Request.Frame
 //@   modifies nothing
@@ -270,6 +286,7 @@ func verifHosts(l *roundRobinLoadBalancer) []*Host { return l.hosts.Load().([]*H
 // stream id that was free and now maps to exactly this request.
 //@ func proxycore.ClientConn.addToPending [C01, C02, C18]
 //@   requires c != nil && c.closingMu != nil && c.pending != nil
+//@   requires well-formed-request: reqOK(request) [C17]
 //@   ensures registered: result1 == nil ==> result0 >= 0 && result0 < MaxStreams && !old(c.pending.$has[result0]) && c.pending.$has[result0] && c.pending.$val[result0] == valof(request) && c.pending.$tag[result0] == tagof(request)
 //@   ensures refused: result1 != nil ==> forall(s, 0, MaxStreams, c.pending.$has[s] == old(c.pending.$has[s]) && c.pending.$val[s] == old(c.pending.$val[s]))
 //@   ensures others: forall(s, 0, MaxStreams, s != result0 ==> c.pending.$has[s] == old(c.pending.$has[s]) && c.pending.$val[s] == old(c.pending.$val[s]) && c.pending.$tag[s] == old(c.pending.$tag[s]))
@@ -308,6 +325,7 @@ func verifHosts(l *roundRobinLoadBalancer) []*Host { return l.hosts.Load().([]*H
 //@   local $sndStream int16 = 0
 //@   local $sndRegistered bool = false
 //@   requires c != nil && c.closingMu != nil && c.pending != nil && c.conn != nil
+//@   requires well-formed-request: reqOK(request) [C17]
 //@   after proxycore.ClientConn.addToPending#1 set $sndStream = result0; $sndRegistered = (result1 == nil)
 //@   ensures not-registered-error: !$sndRegistered ==> result != nil
 //@   ensures registered: $sndRegistered ==> c.pending.$has[$sndStream] && c.pending.$val[$sndStream] == valof(request) && !old(c.pending.$has)[$sndStream]
@@ -349,7 +367,8 @@ func verifHosts(l *roundRobinLoadBalancer) []*Host { return l.hosts.Load().([]*H
 //@   local $mpCached bool = false
 //@   local $mpSent bool = false
 //@   local $mpSendOK bool = false
-//@   requires c != nil && c.pending != nil && c.codec != nil && c.conn != nil && c.closingMu != nil && c.preparedCache != nil && raw != nil && raw.Header != nil
+//@   requires c != nil && c.pending != nil && c.codec != nil && c.conn != nil && c.closingMu != nil && c.preparedCache != nil && raw != nil && raw.Header != nil && request != nil
+//@   requires well-formed-request: reqOK(request) [C17]
 //@   after frame.RawCodec.ConvertFromRawFrame#1 set $mpDecoded = (result1 == nil); $mpMsg = result0.Body.Message
 //@   after proxycore.PreparedCache.Load#1 set $mpCached = result1
 //@   after proxycore.ClientConn.Send#1 set $mpSent = true; $mpSendOK = (result == nil)
@@ -361,13 +380,13 @@ func verifHosts(l *roundRobinLoadBalancer) []*Host { return l.hosts.Load().([]*H
 //@ func proxycore.prepareRequest.OnResult [C08]
 //@   local $prExecuted int = 0
 //@   local $prNext bool = false
-//@   requires r != nil && r.origRequest != nil && raw != nil && raw.Header != nil && nolocks()
+//@   requires prOK(r) && raw != nil && raw.Header != nil && nolocks()
 //@   before proxycore.Request.Execute#1 set $prExecuted = $prExecuted + 1; $prNext = arg0
 //@   ensures re-executed-once: $prExecuted == 1 && $prNext == (old(raw.Header.OpCode) == primitive.OpCodeError)
 //@   modifies *
 
 //@ func proxycore.prepareRequest.OnClose [C08, C01]
-//@   requires r != nil && r.origRequest != nil && nolocks()
+//@   requires prOK(r) && nolocks()
 //@   modifies *
 
 // internalRequest.Execute must not take the process down (C17).
